@@ -939,7 +939,6 @@ func checkScanLoops(w *World, r *Result) {
 	r.ok("TPL-C05s", "generator/go/sqlcrud.<templates>", "row loops read into a fresh value", "generator/go/sqlcrud", fmt.Sprintf("%d `for rs.Next()` loops of the instantiated templates: none scans into a variable declared outside the loop", nloops), true)
 }
 
-
 // allStringFields: the number of fields of a struct type all of whose fields are strings (0 otherwise).
 func allStringFields(t types.Type) int {
 	st, ok := t.Underlying().(*types.Struct)
